@@ -90,3 +90,115 @@ pub mod oracle {
 
 	pub const GC_INTERVAL: u32 = crate::oracle::GC_INTERVAL;
 }
+
+// ---------------------------------------------------------------------------------------------
+// Yield points (schedules). `verif_yield!("name")` in the crate calls `yield_point`, which calls
+// the installed handler (if any) on the calling thread. The harness blocks / records there.
+// ---------------------------------------------------------------------------------------------
+pub type YieldHandler = std::sync::Arc<dyn Fn(&'static str) + Send + Sync>;
+
+static YIELD_HANDLER: parking_lot::RwLock<Option<YieldHandler>> = parking_lot::RwLock::new(None);
+
+pub fn set_yield_handler(h: Option<YieldHandler>) {
+	*YIELD_HANDLER.write() = h;
+}
+
+#[inline]
+pub fn yield_point(name: &'static str) {
+	let h = YIELD_HANDLER.read().clone();
+	if let Some(h) = h {
+		h(name);
+	}
+}
+
+/// The real `CommitPipeline` over a harness-supplied environment (C05 / C15 / C17).
+pub mod pipeline {
+	use std::sync::atomic::AtomicU64;
+	use std::sync::Arc;
+
+	use crate::batch::Batch;
+	use crate::commit::{CommitEnv, CommitPipeline};
+	use crate::error::{Error, Result};
+	use crate::stall::{StallCounts, StallThresholds, WriteStallController, WriteStallCountProvider};
+	use crate::InternalKeyKind;
+
+	/// What the harness implements: WAL write and memtable apply of a batch identified by
+	/// its first sequence number and entry count. `Err(msg)` makes the step fail.
+	pub trait Env: Send + Sync + 'static {
+		fn write(&self, first_seq: u64, count: u32, sync: bool) -> std::result::Result<(), String>;
+		fn apply(&self, first_seq: u64, count: u32) -> std::result::Result<(), String>;
+		fn oldest_active(&self) -> u64;
+	}
+
+	struct Adapter(Arc<dyn Env>);
+
+	impl CommitEnv for Adapter {
+		fn write(&self, batch: &Batch, seq_num: u64, sync: bool) -> Result<Batch> {
+			self.0.write(seq_num, batch.count(), sync).map_err(Error::Other)?;
+			Ok(batch.clone())
+		}
+		fn apply(&self, batch: &Batch) -> Result<()> {
+			self.0.apply(batch.starting_seq_num, batch.count()).map_err(Error::Other)
+		}
+		fn check_background_error(&self) -> Result<()> {
+			Ok(())
+		}
+		fn oldest_active_start_seq(&self) -> u64 {
+			self.0.oldest_active()
+		}
+	}
+
+	struct NoStall;
+	impl WriteStallCountProvider for NoStall {
+		fn get_stall_counts(&self) -> StallCounts {
+			StallCounts {
+				immutable_memtables: 0,
+				l0_files: 0,
+			}
+		}
+	}
+
+	pub struct Pipeline {
+		inner: Arc<CommitPipeline>,
+	}
+
+	impl Pipeline {
+		pub fn new(env: Arc<dyn Env>) -> Self {
+			let stall = Arc::new(WriteStallController::new(
+				Arc::new(NoStall),
+				StallThresholds {
+					memtable_limit: usize::MAX,
+					l0_file_limit: usize::MAX,
+				},
+			));
+			let inner =
+				CommitPipeline::new(Arc::new(Adapter(env)), Arc::new(AtomicU64::new(0)), stall);
+			Pipeline {
+				inner,
+			}
+		}
+
+		/// Commits a batch of `Set` records on `keys`. Returns `"ok"`, `"conflict"`, `"retry"`
+		/// or `"err:<kind>"`.
+		pub async fn commit(&self, keys: &[Vec<u8>], start_seq: u64) -> String {
+			let mut batch = Batch::new(0);
+			for k in keys {
+				if let Err(e) = batch.add_record(InternalKeyKind::Set, k.clone(), Some(b"v".to_vec()), 0) {
+					return format!("err:batch:{e}");
+				}
+			}
+			match self.inner.commit(batch, false, start_seq).await {
+				Ok(()) => "ok".to_string(),
+				Err(Error::TransactionWriteConflict) => "conflict".to_string(),
+				Err(Error::TransactionRetry) => "retry".to_string(),
+				Err(Error::CommitFail(_)) => "err:apply".to_string(),
+				Err(Error::PipelineStall) => "err:stall".to_string(),
+				Err(_) => "err:wal".to_string(),
+			}
+		}
+
+		pub fn visible(&self) -> u64 {
+			self.inner.get_visible_seq_num()
+		}
+	}
+}
